@@ -531,6 +531,10 @@ func GenStrategyModel(r *hx.Rand) (*Model, *typesystem.TypeSystem) {
 		docRels := []*RelDef{
 			{Name: "parent", Rewrite: &Rewrite{Kind: "this"}, Restrs: []Restr{{Typ: "folder", Cond: cond()}}},
 		}
+		if r.Chance(1, 2) {
+			// several parent types: one of them may need deeper resolution than the weight-two fast path offers
+			docRels[0].Restrs = append(docRels[0].Restrs, Restr{Typ: "group"})
+		}
 		v := &RelDef{Name: "viewer", Rewrite: &Rewrite{Kind: "this"}, Restrs: []Restr{{Typ: "group", Rel: "member", Cond: cond()}}}
 		if r.Chance(1, 2) {
 			v.Restrs = append(v.Restrs, Restr{Typ: "user"})
@@ -545,6 +549,11 @@ func GenStrategyModel(r *hx.Rand) (*Model, *typesystem.TypeSystem) {
 		docRels = append(docRels, &RelDef{Name: "can", Rewrite: &Rewrite{Kind: "ttu", Tupleset: "parent", Computed: hx.Pick(r, []string{"viewer", "a", "rviewer"})}})
 		if r.Chance(1, 2) {
 			docRels = append(docRels, &RelDef{Name: "ok", Rewrite: &Rewrite{Kind: hx.Pick(r, []string{"inter", "diff", "union"}), Kids: []*Rewrite{{Kind: "cu", Rel: "viewer"}, {Kind: "cu", Rel: "can"}}}})
+		}
+		if len(docRels[0].Restrs) > 1 {
+			grp.Rels = append(grp.Rels,
+				&RelDef{Name: "viewer", Rewrite: &Rewrite{Kind: "this"}, Restrs: []Restr{{Typ: "group", Rel: "member"}}},
+				&RelDef{Name: "rviewer", Rewrite: &Rewrite{Kind: "cu", Rel: "rmember"}})
 		}
 		m.Types = append(m.Types, grp, fld, &TypeDef{Name: "doc", Rels: docRels})
 		ts, err := typesystem.NewAndValidate(context.Background(), m.Proto("01HVMMBCMGZNT3SED4Z17ECXCA"))
